@@ -21,6 +21,7 @@ verus! {
 //@include spec/binding.spec.rs
 //@include spec/binop.spec.rs
 //@include spec/parser.spec.rs
+//@include spec/grammar.spec.rs
 
 impl Token {
 //@fn Token.error
